@@ -210,6 +210,7 @@ class Sched:
     """
 
     WINDOW_US = 2000
+    WATCHDOG_S = 30
 
     def __init__(self, clock, source, log, step_cap=2000, stalls=None, crash=None):
         self.clock = clock
@@ -297,7 +298,9 @@ class Sched:
                 if a.thread.is_alive():
                     self.current = a
                     a.sem.release()
-                    self.main_sem.acquire()
+                    if not self.main_sem.acquire(timeout=self.WATCHDOG_S):
+                        self.aborted = "actor %d is blocked outside a seam while unwinding" % a.idx
+                        raise HarnessError(self.aborted)
                     self.current = None
                 continue
             live = {i: a for i, a in self.actors.items() if a.state == "live"}
@@ -314,7 +317,13 @@ class Sched:
             self._fire_due()
             self.current = a
             a.sem.release()
-            self.main_sem.acquire()
+            if not self.main_sem.acquire(timeout=self.WATCHDOG_S):
+                # The actor holding the baton is blocked on something the simulator does not own (e.g. SQLite's
+                # per-connection mutex, held by an actor that is parked inside the busy handler, when the code under
+                # test shares one connection between threads).  A free-running execution would not be stuck here;
+                # the simulation cannot continue.  Neither a pass nor a violation: a harness error.
+                self.aborted = "actor %d is blocked outside a seam (wall-clock watchdog %ds)" % (a.idx, self.WATCHDOG_S)
+                raise HarnessError(self.aborted)
             self.current = None
         for a in self.actors.values():
             a.thread.join(10)
